@@ -131,8 +131,8 @@ EXPORT errno_t _wcrtomb_s_chk(size_t *restrict retvalp, char *restrict dest,
     errno_t rc;
     char tmp[MB_LEN_MAX];
 
-    CHK_SRC_NULL("wcrtomb_s", retvalp)
-    CHK_SRC_NULL("wcrtomb_s", ps)
+    CHK_ARG_NULL_TERM("wcrtomb_s", retvalp, RSIZE_MAX_STR, char)
+    CHK_ARG_NULL_TERM("wcrtomb_s", ps, RSIZE_MAX_STR, char)
     /* GLIBC asserts with len=0 and wrong state. darwin and musl is fine. */
     if (dest) {
         CHK_DMAX_ZERO("wcrtomb_s")
